@@ -85,6 +85,22 @@ fn assign_all(n: &RefNode, files: u32, out: &mut Vec<u32>) {
     }
 }
 
+/// expected attribution: (element name, AUTOSAR path) of every identifiable node of the master -> bit mask of the files that contain it
+fn expected_attribution(n: &RefNode, assignment: &[u32], idx: &mut usize, path: &str, out: &mut std::collections::BTreeMap<(String, String), u32>) {
+    let mine = assignment[*idx];
+    *idx += 1;
+    let mut here = path.to_string();
+    if is_identifiable(n) {
+        here = format!("{path}/{}", short_name_of(n));
+        out.insert((n.name.clone(), here.clone()), mine);
+    }
+    for item in &n.items {
+        if let RefItem::Elem(c) = item {
+            expected_attribution(c, assignment, idx, &here, out);
+        }
+    }
+}
+
 /// projection of the master on file f, with sibling order varied where permitted
 fn project(rng: &mut Rng, n: &RefNode, assignment: &[u32], idx: &mut usize, f: u32, free: Freedom) -> Option<RefNode> {
     let mine = assignment[*idx];
@@ -291,6 +307,37 @@ pub fn case(rep: &mut Report, rng: &mut Rng, seed: u64, free: Freedom, label: &s
             None => first_canon = Some(merged),
             Some(c) if *c != merged => viol(rep, "merge/depends-on-load-order", label, format!("load order {order:?} gives another model than the first order"), &texts),
             _ => {}
+        }
+        // attribution as reported by the API: every identifiable element is in exactly the files whose text contained it
+        {
+            let mut expected = std::collections::BTreeMap::new();
+            let mut idx = 0;
+            expected_attribution(&m.root, &assignment, &mut idx, "", &mut expected);
+            let mut wrong = Vec::new();
+            for (path, weak) in model.identifiable_elements() {
+                let Some(e) = weak.upgrade() else { continue };
+                let Some(want) = expected.get(&(e.element_name().to_string(), path.clone())) else { continue };
+                rep.count("attributions_checked", 1);
+                match e.file_membership() {
+                    Ok((_, set)) => {
+                        let mut got = 0u32;
+                        let mut foreign = false;
+                        for w in &set {
+                            match files.iter().position(|f| f.as_ref().is_some_and(|f| f.downgrade() == *w)) {
+                                Some(i) => got |= 1 << i,
+                                None => foreign = true,
+                            }
+                        }
+                        if got != *want || foreign {
+                            wrong.push(format!("{path}: reported in files {got:#b}{}, its text is in files {want:#b}", if foreign { " + an unknown file" } else { "" }));
+                        }
+                    }
+                    Err(e) => wrong.push(format!("{path}: file_membership fails: {e}")),
+                }
+            }
+            if !wrong.is_empty() {
+                viol(rep, "merge/wrong-attribution", label, format!("load order {order:?} (bit i = file f<i>): {}", wrong.iter().take(4).cloned().collect::<Vec<_>>().join("; ")), &texts);
+            }
         }
         // per file text == projection
         for f in 0..k {
